@@ -599,15 +599,15 @@ macro_rules! alloc_harness {
 // @bound every 7-byte input starting with vbin32 / vbin8 / str32 / sym32: the size field is any 32-bit value, the data is (at most) 2 bytes
 // @desc a length field on the wire does not make the decoder allocate more than the input can justify (input length + 4 KiB)
 alloc_harness!(c04_alloc_vbin32_slice, 7, VBIN32, |buf| serde_amqp::from_slice::<serde_bytes::ByteBuf>(&buf));
-// @tier-of c04_alloc_vbin32_io thorough
+// @tier-of c04_alloc_vbin32_io probe
 // @mem 40
 alloc_harness!(c04_alloc_vbin32_io, 7, VBIN32, |buf| serde_amqp::from_reader::<serde_bytes::ByteBuf>(&buf[..]));
-// @tier-of c04_alloc_str32_io_borrowed thorough
+// @tier-of c04_alloc_str32_io_borrowed probe
 // @unwind 4100
 // @mem 40
 // @bound as above, through IoReader::fill_buffer (a visitor that takes &str / &[u8]); the 4 KiB zero-fill loop is unwound completely
 alloc_harness!(c04_alloc_str32_io_borrowed, 7, 0xb1, |buf| serde_amqp::from_reader::<StrOnly>(&buf[..]));
-// @tier-of c04_alloc_vbin32_io_borrowed thorough
+// @tier-of c04_alloc_vbin32_io_borrowed probe
 // @unwind 4100
 // @mem 40
 alloc_harness!(c04_alloc_vbin32_io_borrowed, 7, VBIN32, |buf| serde_amqp::from_reader::<BytesOnly>(&buf[..]));
